@@ -1171,6 +1171,25 @@ impl CompileState<'_> {
 
                 all_values.push((value.clone(), v_span));
             }
+
+            // A binding pattern (`Ok(x)`, `Err(e)`, `Some(x)`) cannot be one of several
+            // alternatives: the arm unwraps and binds unconditionally, so any other
+            // alternative would reach the arm body with the wrong variant or with the
+            // name unbound.
+            if values.len() > 1 {
+                if let Some(binding) = values.iter().find(|v| match &v.inner {
+                    ExprKind::Ok(inner) | ExprKind::Err(inner) | ExprKind::Optional(Some(inner)) => {
+                        matches!(inner.inner, ExprKind::Identifier(_))
+                    }
+                    _ => false,
+                }) {
+                    return Err(self.err(InvalidExpression(
+                        "a binding pattern cannot be combined with other patterns using `|`",
+                        binding.clone(),
+                        None,
+                    )));
+                }
+            }
         }
 
         // find duplicate default arms
